@@ -165,6 +165,8 @@ Fixpoint write_image_list (s : wst) (ims : list mimage) : result wst :=
   | [] => Ok s
   | im :: r =>
       s <- align_to s page_size ;;
+      (* after fixes/C17-segment-congruence.diff: p_offset congruent to p_vaddr modulo the page size *)
+      let s := if segments_congruent then wr s (zeros (mi_addr im mod page_size)) else s in
       let file_offset := tell s in
       s <- image_headers s im file_offset (mi_secs im) ;;
       d <- image_data im ;;
@@ -219,10 +221,14 @@ Fixpoint write_symbols (ht : htypes) (o : mobj) (s : wst) (nr : Z) (syms : list 
       let info := Z.lor (Z.shiftl st_bind 4) (st_type_of (my_typ y)) in
       '(shndx, value) <- match my_value y with
                          | Some v =>
-                             secname <- key (my_section y) ;;
-                             n <- key (sget (w_secnums s) secname) ;;
-                             sec <- obj_get_section o secname ;;
-                             Ok (n, v + ms_addr sec)
+                             match my_section y, abs_symbol_shndx with
+                             | None, Some shn_abs => Ok (shn_abs, v)   (* absolute symbol (after C17-absolute-symbols) *)
+                             | _, _ =>
+                                 secname <- key (my_section y) ;;
+                                 n <- key (sget (w_secnums s) secname) ;;
+                                 sec <- obj_get_section o secname ;;
+                                 Ok (n, v + ms_addr sec)
+                             end
                          | None => Ok (0, 0)
                          end ;;
       let e := [("st_size", my_size y); ("st_value", value); ("st_shndx", shndx); ("st_info", info);
